@@ -534,6 +534,9 @@ class Check:
         file is not trusted, no theorem counts as discharged."""
         broken = translate(units)
         self.coverage["translator_units"] = list(units)
+        if UNLISTED_BROKEN:
+            self.notes.append("translator units this check does not name refused the current source (their generated files were removed): "
+                              + "; ".join(x[:200] for x in UNLISTED_BROKEN))
         if broken:
             self.proof_broken = {"kind": "translator", "messages": broken}
             self.notes.append("translator refused the current source: " + "; ".join(broken))
@@ -615,11 +618,22 @@ BASE_TRUST = [
 
 # ---------------------------------------------------------------- translate + batch helpers
 
+UNLISTED_BROKEN = []
+
+
 def translate(units):
-    """Run translate/gen.py for the given units. Returns list of BROKEN-TIE messages (empty = fine)."""
-    rc, out, err = run([sys.executable, os.path.join(VERIF, "translate", "gen.py")] + list(units), timeout=600)
-    broken = [l for l in out.split("\n") if l.startswith("BROKEN-TIE")]
-    if rc not in (0, 3) and not broken:
+    """Regenerate coq/Gen from the tree being checked.  ALL translator units are run (in parallel, about ten seconds), not
+    only the ones the check names: a generated file left behind by a run on another tree (VERIF_REPO, a change that was
+    applied and undone) must never be what a theorem is checked against.  Returns the BROKEN-TIE messages of the units the
+    check names (empty = fine).  A broken unit the check does not name is not this check's tie: its generated files are
+    removed by gen.py, so a theorem that needs one fails to build and is reported as a broken proof; the messages are kept
+    in UNLISTED_BROKEN for the evidence notes."""
+    rc, out, err = run([sys.executable, os.path.join(VERIF, "translate", "gen.py")], timeout=900)
+    lines = [l for l in out.split("\n") if l.startswith("BROKEN-TIE")]
+    named = set(units)
+    broken = [l for l in lines if any(("unit=%s " % u) in l + " " for u in named)]
+    UNLISTED_BROKEN[:] = [l for l in lines if l not in broken]
+    if rc not in (0, 3) and not lines:
         broken.append("BROKEN-TIE translator crashed: %s" % (err[-600:],))
     return broken
 
